@@ -66,7 +66,10 @@ KF_BoundsElementName(c, g) ==
   /\ NamesOK(c.root, Renamed(g.tree[1], "Bounds", RootName["Bounds"]))
   /\ g.un[1] = DropTopBounds(c.root, Want(c))
   /\ C04Scan(c, g)
+\* "for every ... value": marshalling the value itself (not addressable) gives the same text as marshalling through a pointer
+C04ByValue(c, g) == g.vmerr = "" /\ g.vsame
 C04Fails(c, g) == IF Crashed(g) THEN {"crash"} ELSE
+  (IF C04ByValue(c, g) THEN {} ELSE {"by-value"}) \cup
   (IF C04Un(c, g) THEN {} ELSE {"unmarshal"}) \cup (IF C04Scan(c, g) THEN {} ELSE {"scan"}) \cup (IF C04Names(c, g) THEN {} ELSE {"names"})
 \* known findings that hold, each with the judges it explains: {<<name, {judges}>>}
 C04Known(c, g) == IF ~Crashed(g) /\ KF_BoundsElementName(c, g) THEN {<<"KF_BoundsElementName", {"unmarshal", "names"}>>} ELSE {}
@@ -129,6 +132,8 @@ KF_BoundsInElements(c, x) ==
 
 C05FailsOne(c, x) == IF Crashed(x) THEN {"crash"} ELSE
   IF c.kind = "rt" THEN (IF C05Shape(c, x) THEN {} ELSE {"shape"}) \cup (IF C05Round(c, x) THEN {} ELSE {"roundtrip"})
+                        \* marshalling the value itself (not addressable) gives the same text as marshalling through a pointer
+                        \cup (IF x.vmerr = "" /\ x.vsame THEN {} ELSE {"by-value"})
   ELSE (IF C05Doc(c, x) THEN {} ELSE {"document"})
 C05KnownOne(c, x) ==
   IF Crashed(x) THEN {} ELSE
